@@ -90,4 +90,44 @@ class UnphasePart:
             ctx.violation("unphase:not-idempotent:" + kind, msg)
 
 
-PARTS = [UnphasePart()]
+class AfterPhasePart:
+    """unphase(phase(x)) gives the same records as unphase(x), for both tags"""
+    name = "after-phase"
+    budget = {"quick": 480, "thorough": 10000}
+
+    def strategy(self, tier):
+        from vlib import pipeline as P
+
+        @st.composite
+        def case(draw):
+            c = P.gen_case(draw, nsamples=(1, 2), depth=(1, 6), paired_share=15, clip_share=0, eqx_share=0, ncontigs=(1, 2), length=(300, 700))
+            c["tag"] = draw(st.sampled_from(["PS", "HP"]))
+            c["twice"] = draw(st.booleans())
+            return c
+        return case()
+
+    def run(self, case, ctx):
+        from vlib import pipeline as P
+        d = ctx.tmp()
+        paths, reads = P.materialise(case, d)
+        if "bam" not in paths:
+            return
+        out, _ = P.run_phase(d, paths["vcf"], [paths["bam"]], reference=paths["ref"], tag=case["tag"], trace=False)
+        if case["twice"]:
+            other = "HP" if case["tag"] == "PS" else "PS"
+            out, _ = P.run_phase(d, out, [paths["bam"]], reference=paths["ref"], tag=other, out_name="out2.vcf", trace=False)
+        u1 = os.path.join(d, "u_phased.vcf")
+        u0 = os.path.join(d, "u_orig.vcf")
+        run_unphase(out, u1)
+        run_unphase(paths["vcf"], u0)
+        unphase_checks(out, u1, ctx)
+        _, a = vm.read_vcf(u0)
+        _, b = vm.read_vcf(u1)
+        for kind, msg in vm.diff_records(a, b, ignore_format=(), compare_gt="exact"):
+            ctx.violation("unphase:after-phase:" + kind, msg)
+        _, ph = vm.read_vcf(out)
+        ctx.nontrivial(any(c["phased"] or "HP" in c["fmt"] for r in ph for c in r["samples"].values()))
+        ctx.label("tag-" + case["tag"] + ("-then-other" if case["twice"] else ""))
+
+
+PARTS = [UnphasePart(), AfterPhasePart()]
